@@ -336,6 +336,8 @@ class TemplateSet:
         )
         self._cache: Dict[str, nodes.Template] = {}
         self._src: Dict[str, str] = {}
+        self._uses_loop: Dict[int, bool] = {}
+        self._data_parts: Dict[int, list] = {}
         # attr name -> parts: string-building properties unfolded by definition
         # (filled from Engine P by callers: vlib.pymodel.string_properties)
         self.unfold: Dict[str, list] = dict(unfold or {})
@@ -359,6 +361,23 @@ class TemplateSet:
 
     def path(self, name: str) -> str:
         return os.path.join(self.root, name)
+
+    def uses_loop(self, n) -> bool:
+        k = id(n)
+        if k not in self._uses_loop:
+            self._uses_loop[k] = any(x.name == "loop" for x in n.find_all(nodes.Name))
+        return self._uses_loop[k]
+
+    def data_parts(self, c):
+        k = id(c)
+        if k not in self._data_parts:
+            parts, line = [], c.lineno
+            for part in c.data.splitlines(keepends=True):
+                parts.append((part, line))
+                if part.endswith("\n"):
+                    line += 1
+            self._data_parts[k] = parts
+        return self._data_parts[k]
 
     def public_names(self) -> List[str]:
         out = []
@@ -650,17 +669,8 @@ class Renderer:
         raise NotImplementedError(f"jinja statement {type(n).__name__} in {self.cur()}:{n.lineno}")
 
     def data_segs(self, c: nodes.TemplateData) -> List[Seg]:
-        data = c.data
-        if not data:
-            return []
-        # split per line so that template line numbers stay accurate
-        out = []
-        line = c.lineno
-        for part in data.splitlines(keepends=True):
-            out.append(Seg(part, "d", self.cur(), line, self.guards))
-            if part.endswith("\n"):
-                line += 1
-        return out
+        cur, g = self.tmpl_stack[-1], self.guards
+        return [Seg(part, "d", cur, line, g) for part, line in self.ts.data_parts(c)]
 
     def stmt_if(self, n: nodes.If, scope) -> List[Seg]:
         saved = self.guards
@@ -705,7 +715,7 @@ class Renderer:
             canon_full = self.canon_val(it)
             self.use(it, "iter", n.lineno)
             base, filt_tests = self.strip_order_filters(canon_full)
-            uses_loop = any(isinstance(x, nodes.Name) and x.name == "loop" for x in n.find_all(nodes.Name))
+            uses_loop = self.ts.uses_loop(n)
             coll = re.sub(r"\.(items|values|keys)\(\)$", "", base)
             arity = self.val.loop(coll, id(n), want2=uses_loop)
             elem = "ELEM(" + base + ")"
@@ -1506,7 +1516,8 @@ def render(ts: TemplateSet, name: str, forced=None, default=True, loop_default=1
 
 
 def cover(ts: TemplateSet, name: str, constraints=None, const_roots=None, max_runs=4000,
-          loop_arities=(0, 1), seeds=((True, 1), (False, 1)), want2_all=False, known_roots=None):
+          loop_arities=(0, 1), seeds=((True, 1), (False, 1)), want2_all=False, known_roots=None,
+          base_forced=None):
     """Greedy concolic-style search for a set of consistent valuations that
     covers every (decision site, outcome) reachable in the template.
 
@@ -1517,7 +1528,8 @@ def cover(ts: TemplateSet, name: str, constraints=None, const_roots=None, max_ru
     variants: List[Skeleton] = []
     infeasible = 0
     runs = 0
-    queue: List[Tuple[dict, bool, int]] = [({}, d, ld) for d, ld in seeds]
+    base_forced = dict(base_forced or {})
+    queue: List[Tuple[dict, bool, int]] = [(dict(base_forced), d, ld) for d, ld in seeds]
     errors = []
     while queue and runs < max_runs:
         forced, default, ld = queue.pop(0)
@@ -1540,11 +1552,14 @@ def cover(ts: TemplateSet, name: str, constraints=None, const_roots=None, max_ru
                 alts = [x for x in (loop_arities if not want2_all else (0, 1, 2)) if x != v]
             else:
                 alts = [not v]
+            if a in base_forced:
+                alts = []
             for alt in alts:
                 key = (site, alt)
                 if key in covered or key in scheduled:
                     continue
-                f2 = dict(prefix)
+                f2 = dict(base_forced)
+                f2.update(prefix)
                 f2[a] = alt
                 scheduled.add(key)
                 queue.append((f2, default, ld))
